@@ -26,6 +26,7 @@ EXPLANATION = (
     ' (D1 groups) each iteration of the per-collection loop handles exactly one group of equal collection values: mask equality with the group value, or argsort + split at the group starts of the SORTED vector (cut points from the unsorted vector are refused). (D3) label selectors are evaluated on the finite label domain {0,1,2,3}.'
     " (D7) the ADC-delay vector of the trace header survives a call: no in-place statement of fshift acts on a value that can share storage with its shift argument (numpy view model: asarray / reshape / basic indexing / astype(copy=False) return the argument's buffer), destripe never stores into h."
     ' (DS as built) hand-rolled module-level caches count as memoisation; for `G[key] = value` every parameter the value is computed from must take part in the key (cache-key completeness).'
+    ' (D1 label form) grouped referencing without recursion: references computed from the members of np.unique(return_inverse) labels and subtracted through the same labels; ufunc.reduceat over first occurrences is a positional-block sum and needs sorted collections.'
 )
 ASSUMPTIONS = [
     "fourier.fshift behaves as decided by C07 (positive shift delays)",
